@@ -97,18 +97,24 @@ func CheckTape(pj *simdjson.ParsedJson, allowNop bool) error {
 			if !allowNop {
 				return fmt.Errorf("tape[%d]: NOP tag in a freshly parsed tape", i)
 			}
-			if pay == 0 || uint64(i)+pay > uint64(f.end) {
-				return fmt.Errorf("tape[%d]: NOP skip %d leaves its scope (end %d)", i, pay, f.end)
+			// a run of NOP entries: every one of them must land exactly on the next live entry (linear scan)
+			e := i
+			for e < f.end && byte(tape[e]>>56) == 'N' {
+				e++
 			}
-			for j := i + 1; j < i+int(pay); j++ {
-				if byte(tape[j]>>56) != 'N' {
-					return fmt.Errorf("tape[%d]: NOP skip %d jumps over live entry at %d", i, pay, j)
+			for j := i; j < e; j++ {
+				if p := tape[j] & valueMask; p != uint64(e-j) {
+					switch {
+					case p == 0 || uint64(j)+p > uint64(f.end):
+						return fmt.Errorf("tape[%d]: NOP skip %d leaves its scope (end %d)", j, p, f.end)
+					case uint64(j)+p < uint64(e):
+						return fmt.Errorf("tape[%d]: NOP skip %d lands on another NOP at %d, not on the next live entry %d", j, p, uint64(j)+p, e)
+					default:
+						return fmt.Errorf("tape[%d]: NOP skip %d jumps over the live entry at %d", j, p, e)
+					}
 				}
 			}
-			if byte(tape[i+int(pay)]>>56) == 'N' {
-				return fmt.Errorf("tape[%d]: NOP skip %d lands on another NOP at %d, not on the next live entry", i, pay, i+int(pay))
-			}
-			i++
+			i = e
 			continue
 		}
 		// a value (or an object key)
